@@ -403,6 +403,13 @@ func initBigFloat() {
 		"to_int",
 		func(_ *Thread, args []value.Value) (value.Value, value.Value) {
 			self := (*value.BigFloat)(args[0].Pointer())
+			if self.IsNaN() || self.IsInf(0) {
+				return value.Undefined, value.Ref(value.Errorf(
+					value.OutOfRangeErrorClass,
+					"cannot convert %s to Int",
+					self.Inspect(),
+				))
+			}
 			return self.ToInt(), value.Undefined
 		},
 	)
